@@ -135,6 +135,9 @@ pub struct Pair {
     pub f: BloomFilter,
     pub m: Model,
     pub key: Vec<u8>,
+    /// hash of the op history; part of the key only while the image is the empty form, which
+    /// says nothing about the in-memory bits (such states must not be merged with each other)
+    pub hist: u64,
 }
 
 pub enum Applied {
@@ -237,10 +240,11 @@ fn panic_vio(site: &str, p: &PanicInfo) -> (String, String) {
 impl Pair {
     pub fn new(lay: &Layout) -> Result<Pair, (String, String)> {
         let f = lay.make().map_err(|p| panic_vio("BloomFilterBuilder::with_size(..).seed(..).build()", &p))?;
-        Ok(Pair { f, m: Model { bits: vec![0; lay.words], oblig: 0 }, key: vec![] })
+        Ok(Pair { f, m: Model { bits: vec![0; lay.words], oblig: 0 }, key: vec![], hist: 0 })
     }
 
     pub fn apply(&mut self, lay: &Layout, pool: &[Pair], op: &Op, edges: &Edges, first_visit: &dyn Fn(&[u8]) -> bool) -> Applied {
+        self.hist = (self.hist ^ (format!("{op:?}").bytes().fold(0xcbf29ce484222325u64, |h, b| (h ^ b as u64).wrapping_mul(0x100000001b3)))).wrapping_mul(0x9E3779B97F4A7C15).wrapping_add(1);
         let mut out: Vec<(String, String)> = vec![];
         match op {
             Op::Insert(i) | Op::ContainsInsert(i) => {
@@ -457,6 +461,9 @@ impl Pair {
         }
         key.extend_from_slice(&img_count.to_le_bytes());
         key.extend_from_slice(&self.m.oblig.to_le_bytes());
+        if empty_img && self.hist != 0 {
+            key.extend_from_slice(&self.hist.to_le_bytes());
+        }
         self.key = key;
         if let Some((i, r, m)) = first {
             let x = r ^ m;
